@@ -23,6 +23,28 @@ class Ctx:
         self.tier = tier
         self.root = root
 
+    def vnorm(self, fn, node_or_text) -> str:
+        """Value-normal text of an expression in the context of function `fn`: every sub-expression that folds to an int/str/bytes
+        (named constants, calcsize(...), arithmetic on them) is replaced by its value, so `x * 16` and `x * Block.SIZE` compare equal."""
+        import ast as _ast
+        from .core.report import norm as _norm
+        from .core.symtab import UNKNOWN as _UNK
+        node = _ast.parse(node_or_text, mode="eval").body if isinstance(node_or_text, str) else node_or_text
+        prog = self.prog
+
+        class T(_ast.NodeTransformer):
+            def generic_visit(s2, n):
+                if isinstance(n, _ast.expr) and not isinstance(n, _ast.Constant):
+                    try:
+                        v = prog.fold(n, fn.module, fn.cls)
+                    except Exception:  # noqa
+                        v = _UNK
+                    if isinstance(v, (int, str, bytes)) and not isinstance(v, bool):
+                        return _ast.Constant(value=v)
+                return super().generic_visit(n)
+        from .core import astutil as _A
+        return _norm(T().visit(_A.clone(node)))
+
     def borrow(self, fn, src_prefix: str, dst_prefix: str, *args) -> None:
         """Run a rule of another property and take over the obligations whose rule name starts with src_prefix, renamed to
         dst_prefix (shared mechanisms: one rule implementation, reported under the property that relies on it)."""
